@@ -244,10 +244,37 @@ register_b09(
 )
 
 
+import suite_lib  # noqa: E402
+
+PROPS["C20"] = {
+    "lean": ["CocoVerif.Tie.EcbHelpers", "CocoVerif.Props.C20"],
+    "lean_extra": ["CocoVerif.Model.B09Lib", "CocoVerif.Spec.Strings", "CocoVerif.Pinned.EcbHelpers"],
+    "suites": [{"name": "lib", "relevant": lambda c: True, "oracle": suite_lib.oracle}],
+    "search": None,
+    "rule": "exhaustive: every subject over {A,B} up to length 4 (6 thorough) x every pattern up to length 3 (4) x every start "
+            "index 1..len+2, plus long probes; STRING$ counts (all 0..255 in thorough) x 5 arguments incl. empty and negative counts; "
+            "10 DATA spellings for the read filter; each case runs the procedure as translated from ecb.b09 on this run in the "
+            "B09Lib interpreter and compares with an independent Python definition; distinct = distinct request",
+    "trusted": ["no BASIC09 exists offline: Model/B09Lib.lean (semantics of the statement subset: integers for numbers, unbounded "
+                "strings, MID$(s,a,n) = (s.drop (a-1)).take n with an error for a<1 or n<0, VAL as a parameter) is the trusted "
+                "reading of BASIC09; there is NO correspondence run for this property, the tie is the translator plus "
+                "Tie.EcbHelpers (regenerated AST = pinned AST, by rfl)",
+                "BASIC09 truncates STRING parameters to their declared length (32 by default): not modelled"],
+    "assumptions": ["start indices >= 1 (Color BASIC raises ?FC ERROR below 1)"],
+}
+
+
 # --------------------------------------------------------------------------- witnesses / replay
 
 def replay_request(pid, request):
     """Run one stored request against the real code and judge it with the property oracle."""
+    if request.startswith("lib "):
+        from common import run_driver
+        ans = run_driver([request])[0]
+        for c in suite_lib.cases("thorough"):
+            if c["req"] == request:
+                return suite_lib.oracle(c, ans)
+        return None
     if request.startswith("b09 "):
         import impl_b09
         from common import unhex
@@ -284,6 +311,10 @@ def replay_witness(f):
         case = {"fmt": parts[1], "kind": w.get("kind", "valid"), "req": w["request"], "data": unhex(parts[-1])}
         case.update(w.get("case", {}))
         return OI.ORACLES[w.get("oracle", f["property"])](case, impl)
+    if isinstance(w, dict) and w.get("type") == "lib":
+        from common import run_driver
+        ans = run_driver([w["request"]])[0]
+        return None if ans == w["expect"] else f"{w['request']} -> {ans}, expected {w['expect']}"
     if isinstance(w, dict) and w.get("type") == "b09":
         import impl_b09
         o = w["opts"]
